@@ -18,7 +18,7 @@ PROPS = {
  "C05": ("bounded-exhaustive (lists of <= 3 operands from the 16 two-variable functions x all bounds incl. i64 extremes x all forms) + random lists; oracle = arithmetic count per assignment",
          "All five comparison kinds, constant and list right-hand sides, API and language level, negative / oversized / huge constants.",
          "API bounds restricted to n with n +/- len inside i64 (the property's domain)"),
- "C06": ("generated monotone fixed-point bodies (polarity-disciplined tape decoder + constructed multi-step chains) vs Knaster-Tarski enumeration of ALL candidate functions; alpha-renaming metamorphic check; model-based fp(a,t)",
+ "C06": ("generated monotone fixed-point bodies (polarity-disciplined tape decoder + constructed multi-step chains) vs Knaster-Tarski enumeration of ALL candidate functions; alpha-renaming metamorphic check; bodies reaching the bound name through a definition vs the inlined text; model-based fp(a,t)",
          "For every generated body all 2^(2^k) candidate functions (k<=3, thorough 4) are enumerated: the answer must be a fixed point below every pre-fixed point (lfp) / above every post-fixed point (gfp). Termination observed through the fp iteration-limit hook.",
          "syntactic monotonicity is sufficient, not necessary; inner fixed points inside T use the reference Kleene evaluator"),
  "C07": ("bounded-exhaustive (all functions of <= 4 variables x id maps) + random functions + CLI spawns; oracle = cube/containment/support checks on truth tables",
